@@ -470,6 +470,10 @@ func runC07(c *mc.Ctx) {
 					fs = append(fs, m)
 				}
 			}
+			// framed by white space / terminators
+			for _, fr := range []string{" ", "\t", "\n", "\r", "\r\n", "\x00", "\n\n", "\ufeff"} {
+				fs = append(fs, []byte(string(b)+fr), []byte(fr+string(b)), []byte(fr+string(b)+fr))
+			}
 			// and every multi-byte character that a rune-wise decoder may take for the letter there
 			for _, m := range runeSubstitutions(string(b)) {
 				fs = append(fs, []byte(m))
@@ -718,6 +722,36 @@ func runC07(c *mc.Ctx) {
 	for _, s := range bases[:8] { // non-ASCII runes that case-fold into ASCII, in lower- and upper-case strings
 		strs = append(strs, runeSubstitutions(s)...)
 		strs = append(strs, runeSubstitutions(strings.ToUpper(s))...)
+	}
+	for _, s := range bases[:8] {
+		for _, fr := range []string{" ", "\t", "\n", "\r", "\r\n", "\x00", "\ufeff"} {
+			strs = append(strs, s+fr, fr+s, fr+s+fr)
+		}
+		// case by LETTER: in the upper-case string all occurrences of one letter are lower case, and the
+		// other way round, for every letter that occurs; every single character of the upper-case string
+		// in lower case (a case test with an off-by-one at the ends of the alphabet misses exactly the
+		// letters 'a' / 'z' / 'A' / 'Z', which single flips FROM lower case only reach one way round)
+		up, lo := strings.ToUpper(s), strings.ToLower(s)
+		for ch := byte('a'); ch <= 'z'; ch++ {
+			if strings.IndexByte(lo, ch) < 0 {
+				continue
+			}
+			m1, m2 := []byte(up), []byte(lo)
+			for i := range m1 {
+				if lo[i] == ch {
+					m1[i] = ch
+					m2[i] = ch - 32
+				}
+			}
+			strs = append(strs, string(m1), string(m2))
+		}
+		for i := 0; i < len(up); i++ {
+			if up[i] >= 'A' && up[i] <= 'Z' {
+				m := []byte(up)
+				m[i] += 32
+				strs = append(strs, string(m))
+			}
+		}
 	}
 	strs = append(strs, bip173Valid...)
 	strs = append(strs, bip173Invalid...)
